@@ -8,3 +8,4 @@ describe('C03', level='proof', floor=5,
 describe('C04', level='proof', floor=5, explanation='feasibility: prox range, kernels keep coefficients in the domain')
 describe('C18', level='proof', floor=3, explanation='frame conditions of kernels')
 describe('C19', level='proof', floor=3, explanation='degenerate data: zero columns, safety of divisions in kernels')
+describe('C10', level='proof', floor=50, explanation='storage independence of accessors and epoch kernels (bounded shapes, every CSC pattern)')
